@@ -325,20 +325,6 @@ func (w *World) operandWrappersUncached() map[*types.Func]bool {
 	return out
 }
 
-// isValueEvalCall: the call evaluates a sub-expression to a template value:
-// the expression evaluator itself or one of its operand wrappers.
-func (w *World) isValueEvalCall(info *types.Info, c *ast.CallExpr) bool {
-	cal := calleeOf(info, c)
-	if cal == nil || len(c.Args) != 1 {
-		return false
-	}
-	if ev := w.exprEvaluator(); ev != nil && cal == ev.Obj {
-		return true
-	}
-	_, ok := w.operandWrappers()[cal]
-	return ok
-}
-
 // unknownToleranceIf recognises the typed tolerance
 //
 //	if err != nil { if _, ok := err.(*ErrUnknownIdentifier); !ok { return ..., err } }
@@ -777,24 +763,6 @@ func (w *World) parserTokenFields() (cur, peek *types.Var, advance *FuncInfo) {
 		}
 	}
 	return nil, nil, nil
-}
-
-// tokenConstName maps a token constant's string value back to its name(s).
-func (w *World) tokenConstNames() map[string][]string {
-	out := map[string][]string{}
-	sc := w.Pkgs["token"].Types.Scope()
-	for _, n := range sc.Names() {
-		if c, ok := sc.Lookup(n).(*types.Const); ok {
-			if v := c.Val(); v != nil {
-				s := v.ExactString()
-				if len(s) >= 2 && s[0] == '"' {
-					s = s[1 : len(s)-1]
-				}
-				out[s] = append(out[s], n)
-			}
-		}
-	}
-	return out
 }
 
 // evalMethodsOfFunc: non-empty when f is an evaluator of an AST node (one AST-typed parameter, (interface{}, error) results).
